@@ -1,6 +1,6 @@
 """Property -> rules table. Each rule callable: (prog, tier, repo) -> [RuleResult]."""
 from .rules import traversal_instances as TI
-from .rules import gate, lookup_unwrap, heap, witness, incremental, optimizer, const_arith, shape, backend, printer_rules, comment_linear
+from .rules import gate, lookup_unwrap, heap, witness, incremental, optimizer, const_arith, shape, backend, printer_rules, comment_linear, enum_evidence
 
 PROPERTIES = {}
 
@@ -26,8 +26,10 @@ prop('C01', COMMON +
      'TRAVERSAL/DISPATCH/SIBLING: every operand-bearing field of every HIR/MIR/LIR statement and every sub-expression, '
      'block, pattern and literal of the typed source AST is read by each lowering pass that walks it (source->HIR, '
      'generics specialisation, type deduplication, constant-parameter elimination, MIR->LIR, LIR unused-name '
-     'elimination, LIR->WASM). Does not decide that a visited operand is lowered correctly.',
-     [TI.make(['T-hir', 'T-mir_generics_specialization', 'T-mir_type_deduplication', 'T-mir_constant_param_elimination',
+     'elimination, LIR->WASM). ENUM-EVIDENCE: every construction of an unboxed enum variant is guarded by the layout '
+     'predicate, and every possibly-true answer of that predicate is dominated by the Some edge of a lookup of the payload '
+     'type\'s completed definition. Does not decide that a visited operand is lowered correctly.',
+     [enum_evidence.run, TI.make(['T-hir', 'T-mir_generics_specialization', 'T-mir_type_deduplication', 'T-mir_constant_param_elimination',
                'T-lir_lowering', 'T-lune', 'T-wasm'])])
 
 prop('C02', COMMON +
